@@ -15,6 +15,7 @@ import (
 
 func init() {
 	register("C20", func(c *Ctx) {
+		checkProbeScheduler(c, "C20") // the probe round is bounded (a prober that spins never sees the stop channel)
 		p := c.P
 		c.Assume("deadlock-freedom and race-freedom over all interleavings are not decided: the lockset / lock-order rules are necessary conditions; user callbacks re-entering the API and the time goroutines take to stop are out of scope")
 		c.Assume("the local record is inserted by the bootstrap announcement (own advertise address allowed by the allow-list); see the known finding under C02 for claims about the local name arriving before it")
